@@ -41,11 +41,20 @@ let handle op args = match op, args with
                                      ^ " srcs=" ^ string_of_zlist srcs)
       (run_slicer (zlist_of_string shape) (parse_ix ix) (parse_mat aff) (parse_opts dim))
   | "ops", [nif; shape; aff; dim; ops] ->
-    let parse_op t = if t.[0] = 'S' then OSlice (parse_ix (String.sub t 2 (String.length t - 2)))
-                     else OReorient (parse_ornt (String.sub t 2 (String.length t - 2))) in
+    (* op = S=<ix> | R=<ornt> | G=<k> (get_fdata, conversion tagged k, caching='fill') | N=<k> (caching='unchanged')
+       | E=<k> (edit the cached array) | U=0 (uncache) *)
+    let arg t = String.sub t 2 (String.length t - 2) in
+    let parse_op t = match t.[0] with
+      | 'S' -> COp (OSlice (parse_ix (arg t)))
+      | 'R' -> COp (OReorient (parse_ornt (arg t)))
+      | 'G' -> CGet (tag_conv (z_of_string (arg t)), true)
+      | 'N' -> CGet (tag_conv (z_of_string (arg t)), false)
+      | 'E' -> CEdit (tag_conv (z_of_string (arg t)))
+      | 'U' -> CUncache
+      | _ -> failwith "bad op" in
     res (fun (((sh, a), d), srcs) -> "shape=" ^ string_of_zlist sh ^ " aff=" ^ str_mat a ^ " dim=" ^ str_opts d
                                      ^ " srcs=" ^ string_of_zlist srcs)
-      (run_sequence (bool_of_string nif) (zlist_of_string shape) (parse_mat aff) (parse_opts dim)
+      (run_csequence (bool_of_string nif) (zlist_of_string shape) (parse_mat aff) (parse_opts dim)
          (List.map parse_op (split ';' ops)))
   | "slaff", [shape; ix; aff] ->
     res str_mat (slice_affine (parse_mat aff) (zlist_of_string shape) (parse_ix ix))
